@@ -86,6 +86,11 @@ def run(ctx):
             ("sim_any", ALL, 99, 8, 500 if q else 10000),
         ]
         gens = [ex.submit(gen, ctx, *p) for p in plan]
+        # 2b. timed behaviours of one proxy connection (spec/ClientTimeouts.tla): the behavioural meaning of StreamTimeout
+        tl_steps = 4 if q else 6
+        tl_job = ex.submit(lambda: lib.require_ok(lib.run_tlc(
+            ctx, "ClientTimeoutsGen", "ClientTimeoutsGen.cfg", {"WAITS": "{1, 998, 3, 3000}", "MAXSTEPS": tl_steps},
+            workers=2, tag="timeline", timeout=900, env=jvm(ctx)), "ClientTimeouts"))
         for j in jobs:
             r = j.result()
             ctx.log("model check ClientConfig (MaxDev=%d): %d distinct states" % (mc_dev, r.distinct))
@@ -106,6 +111,12 @@ def run(ctx):
         if per_source[need]["emitted"] == 0:
             raise lib.Inconclusive("TLC run %s emitted no rows" % need)
     inp = lib.write_lines(os.path.join(ctx.work, "c20_rows.ndjson"), rows)
+    tl = tl_job.result()
+    if not tl.behaviours:
+        raise lib.Inconclusive("ClientTimeoutsGen emitted no behaviours")
+    tin = lib.write_lines(os.path.join(ctx.work, "c20_timeline.ndjson"), tl.behaviours)
+    tl_configs = 2 if q else 10
+    ctx.log("timeline: %d behaviours of ClientTimeouts (<= %d steps, %d states)" % (len(tl.behaviours), tl_steps, tl.distinct))
     # 3. replay into the real ParseConfig + ProcessRawConfig, both syntaxes
     variants = 2 if q else 3
     #    ... and, in the same test binary, the proof that the oracle is alive: on up to 50 valid rows with a positive
@@ -115,8 +126,12 @@ def run(ctx):
         raise lib.Inconclusive("no valid row with a positive KeepAlive was generated")
     pin = lib.write_lines(os.path.join(ctx.work, "c20_probe.ndjson"), probe)
     res = lib.run_go(ctx, "client", "TestVerifC20Replay",
-                     env={"VERIF_IN": inp, "VERIF_C20_VARIANTS": variants, "VERIF_C20_PROBE": pin})
+                     env={"VERIF_IN": inp, "VERIF_C20_VARIANTS": variants, "VERIF_C20_PROBE": pin,
+                          "VERIF_C20_TIMELINE": tin, "VERIF_C20_TIMELINE_CONFIGS": tl_configs})
     lib.collect_go(ctx, res)
+    if res["stats"].get("timeline:evaluations", 0) < len(tl.behaviours):
+        raise lib.Inconclusive("the timeline part replayed only %s evaluations of %d behaviours"
+                               % (res["stats"].get("timeline:evaluations", 0), len(tl.behaviours)))
     if res["stats"].get("probe:noticed", 0) != len(probe) or res["stats"].get("probe:rows", 0) != len(probe):
         raise lib.Inconclusive("falsified expectation (KeepAlive) was noticed on %s of %d probe rows: the oracle is blind"
                                % (res["stats"].get("probe:noticed", 0), len(probe)))
@@ -129,9 +144,14 @@ def run(ctx):
                 "configuration, at most 2 required fields missing/malformed; (sim) uniformly random rows of the full "
                 "product by TLC -simulate, once with all required fields present and once unrestricted. Each row is run "
                 "with %d concretisations x 2 syntaxes. non-trivial = differs from the example configuration; distinct = "
-                "distinct abstract rows" % ("x".join(CORE if q else CORE_T), 3 if q else 4, variants),
+                "distinct abstract rows. Timeline: every maximal behaviour of ClientTimeoutsGen with <= %d steps (pauses of "
+                "1, 998, 3 and 3000 thousandths of StreamTimeout, first bytes, upload, download), each replayed on the real "
+                "RouteTCP under %d of 10 processed configurations (StreamTimeout 1, 7, 300, 0, absent x NumConn 4, 0) on a "
+                "virtual clock" % ("x".join(CORE if q else CORE_T), 3 if q else 4, variants, tl_steps, tl_configs),
         "samples": res["samples"],
-        "traces_validated_against_impl": len(rows),
+        "traces_validated_against_impl": len(rows) + len(tl.behaviours),
+        "timeline_behaviours": len(tl.behaviours),
+        "timeline_evaluations": stats.get("timeline:evaluations", 0),
         "rows_replayed": len(rows),
         "rows_by_source": per_source,
         "rows_by_expected_outcome": {k[len("outcome:"):]: v for k, v in stats.items() if k.startswith("outcome:")},
@@ -143,7 +163,7 @@ def run(ctx):
         "exhaustive": True,
         "exhaustive_scope": "the decision table within the stated bounds (core product and t-wise), not the full product",
         "oracle_probe": "falsified KeepAlive expectation noticed on %d rows" % len(probe),
-        "checker_cmd": "tlc ClientConfig.tla (ClientConfig_mc.cfg) / ClientConfigGen.tla + go test -run TestVerifC20Replay ./internal/client/",
+        "checker_cmd": "tlc ClientConfig.tla (ClientConfig_mc.cfg) / ClientConfigGen.tla / ClientTimeoutsGen.tla + go test -run TestVerifC20Replay ./internal/client/",
     }
     return lib.finish(ctx, LEVEL, cov, ASSUME)
 
